@@ -224,6 +224,11 @@ class CheckTypes(Contract):
 
     def call_target(self, I, fn, a):
         wrapper = I.call(fn, [a["fn"]], dict(a["opts"]))
+        # whatever the decorator factory built (closure state, handlers, memo tables) is pre-existing state of every CALL: it must be
+        # the same after the call as before it, on every exit (frame.preexisting_objects_unchanged) - no state carried between calls
+        from pyvc.spec import freeze_heap
+
+        freeze_heap(cur())
         return I.call(wrapper, list(a["frame"].args), dict(a["frame"].kwargs))
 
     # ---- specification ------------------------------------------------------------------------------
